@@ -122,6 +122,8 @@ ENUMS = {
     'Level': [None, 'Error', 'Warn', 'Info', 'Debug', 'Trace'],
     'LevelFilter': ['Off', 'Error', 'Warn', 'Info', 'Debug', 'Trace'],
     'AssertKind': ['Eq', 'Ne', 'Match'],
+    'Entry': ['Occupied', 'Vacant'],
+    'Ordering': ['Less', 'Equal', 'Greater'],
 }
 
 
@@ -353,6 +355,7 @@ class Engine:
         self.events = []          # ('alloc', what) / ('dealloc', obj) ...
         self.alloc_events = 0
         self.summaries_used = set()
+        self.summary_counts = {}
         self.bodies_used = set()
         # path / solver
         self.solver = z3.Solver()
@@ -1013,6 +1016,7 @@ class Engine:
         if f is None:
             raise Unsupported('no MIR body or summary for callee %s  (key %s)' % (callee, key))
         self.summaries_used.add(key)
+        self.summary_counts[key] = self.summary_counts.get(key, 0) + 1
         return f(self, args, dict(callee=callee, key=key, self_ty=self_ty, gen=gen, frame=fr))
 
     def call_closure(self, clos, args):
@@ -1055,7 +1059,7 @@ class Engine:
         if hs in ('MaybeUninit', 'ManuallyDrop', 'PhantomData', 'NonNull', 'Cell', 'Layout', 'Global', 'Level',
                   'LevelFilter', 'Kind', 'Link', 'WeakInner', 'Arguments', 'Argument', 'GlobalLogger', 'NonZero',
                   'AllocError', 'LayoutError', 'Iter', 'Range', 'ExtractIf', 'Ordering', 'Infallible', 'Location',
-                  'Formatter', 'DebugStruct', 'Entry', 'Error'):
+                  'Formatter', 'DebugStruct', 'Entry', 'Error', 'OccupiedEntry', 'VacantEntry', 'RawOccupiedEntryMut'):
             return
         if ty == 'T' or ty == 'Self':
             v = self.read(ptr)
